@@ -59,9 +59,11 @@ Verdict(i) ==
             \cup Clauses(R, T, c.names, c.dflt)
        [] c.t = "resolve" ->
             LET R == OwnRules(env, c.tok)                                 \* the token's OWN policies, roles, identities
+                mmF == Mismatch(e.res.fresh, R, env.dflt, env.names)
+                mmS == IF e.res.shared = e.res.fresh THEN mmF ELSE Mismatch(e.res.shared, R, env.dflt, env.names)
             IN   F("WellFormed", WellFormed(e.res.shared, env.names) /\ WellFormed(e.res.fresh, env.names))
-            \cup Tag("NoCrossTalk", Mismatch(e.res.shared, R, env.dflt, env.names))
-            \cup Tag("Semantics", Mismatch(e.res.fresh, R, env.dflt, env.names))
+            \cup Tag("NoCrossTalk", mmS)
+            \cup Tag("Semantics", mmF)
             \cup Clauses(R, e.res.fresh, env.names, env.dflt)
        [] OTHER -> {}
 
